@@ -398,7 +398,7 @@ ASSUMPTIONS = [
 def main(tier, seed):
     r = vlib.Runner("C02", tier, seed)
     r.build()
-    can_run = r.impl_exe and r.model_exe and not any(k in ("corr-build", "model-build") for k, _, _ in r.build_problems)
+    can_run = r.can_run()
     extra = {}
     if can_run:
         r.replay_findings({l.name: l for l in LEGS})
